@@ -145,11 +145,21 @@ def check_property_file(pid, extra_deps=()):
     if r.returncode != 0:
         m = re.search(r'line (\d+)', r.stdout)
         raise Broken(f"theorem-file Properties/{pid}.v" + (f" line {m.group(1)}" if m else ""), r.stdout[-4000:])
+    chk = None
+    if os.environ.get("VERIF_TIER_EFFECTIVE") == "thorough":
+        # independent re-check of the compiled property file and everything it depends on; lists axioms
+        t0 = time.time()
+        c = sh(["timeout", "2400", "coqchk", "-silent", "-o", "-Q", ".", "DS", "DS.Properties." + pid], cwd=COQ)
+        log(f"[coq] coqchk DS.Properties.{pid} rc={c.returncode} {time.time()-t0:.1f}s")
+        m = re.search(r"\* Axioms:(.*?)\n\s*\n\* Constants/Inductives relying on type-in-type", c.stdout, re.S)
+        chk = {"rc": c.returncode, "axioms": " ".join((m.group(1) if m else "?").split())}
+        if c.returncode != 0:
+            raise Broken(f"coqchk DS.Properties.{pid}", c.stdout[-3000:])
     closed = len(re.findall(r"Closed under the global context", r.stdout))
     axioms = sorted(set(re.findall(r"^([A-Za-z0-9_.']+)\s*:", r.stdout, re.M)))
     n_axiom_blocks = len(re.findall(r"^Axioms:", r.stdout, re.M))
     return dict(obligations=len(theorems), discharged=closed + n_axiom_blocks, axioms=axioms,
-                theorems=theorems, refuted=[t for t in theorems if t.endswith("_refuted")],
+                theorems=theorems, coqchk=chk, refuted=[t for t in theorems if t.endswith("_refuted")],
                 partial=[t for t in theorems if t.endswith("_partial")])
 
 
@@ -275,6 +285,8 @@ class Result:
         self.cov["checker_cmd"] = cmd
         self.cov["theorems"] = self.cov.get("theorems", []) + info["theorems"]
         self.cov["axioms_reported_by_Print_Assumptions"] = info["axioms"]
+        if info.get("coqchk"):
+            self.cov["coqchk"] = info["coqchk"]
         if info["refuted"]:
             self.cov["refuted_theorems_in_force"] = info["refuted"]
         if info["partial"]:
